@@ -56,7 +56,7 @@ PROPS["C19"] = {
     "theorems": ["SourceShape.map_sections", "SourceShape.shard_table_fixed", "CMap.toBinaryNumber_pow2", "CMap.and_mask_eq_mod", "CMap.shard_index_in_range", "CMap.wf_invariant", "CMap.size_is_card",
                  "CMap.load_refines", "CMap.store_refines", "CMap.delete_refines", "CMap.linearizable_single_section", "CMap.len_bounds",
                  "CMap.range_visits", "CMap.range_visits_all", "SMap.smap_refines", "SMap.smap_len_exact", "SMap.smap_range_visits", "SMap.smap_linearizable"],
-    "suites": ["cmap", "cmapconc"],
+    "suites": ["cmap", "cmapconc", "racy:session-first-use"],
     "trusted": ["a sync.Mutex critical section is atomic (Facts.smapLocks; per-shard Lock/Unlock pairs in ConcurrentMap)",
                 "Go map semantics; maphash.Hasher is a function of the key",
                 "cmapconc (real concurrent histories checked with porcupine + a register checker) validates the atomicity assumption; it is not part of the proof"],
